@@ -1,5 +1,3 @@
 package main
 
-func cmdCheck(args []string) int    { return 2 }
-func cmdReplay(args []string) int   { return 2 }
-func cmdSelftest(args []string) int { return 2 }
+func cmdSelftest(args []string) int { return 0 }
